@@ -7,7 +7,7 @@ PLAN = dict(
           "0..2^64-1 via the bundle assembler or a generic CBOR head rewriter, prologue length fields, MI record-size field, truncation, header-string edits and "
           "repetitions) or on random bytes. Oracle per call: no panic; returns within a watchdog (20 s, confirmed in isolation with 60 s more); TotalAlloc delta <= "
           "C + 1024 x input size (C = 1 MiB; 34 MiB for the signed-exchange prologue whose 3-byte fields are a stated constant). family: several inputs that differ "
-          "ONLY in one declared length/count exceeding the content present (2^16 .. 2^64-1) must allocate the same amount within 64 KiB + input size. scaling: the same "
+          "ONLY in one declared length/count exceeding the content present (2^16 .. 2^64-1) must allocate the same amount within 256 KiB + input size. scaling: the same "
           "shape at 16/64/256 KiB (quick: 64 KiB) must stay within the linear bound. thorough: native coverage-guided fuzzing of five targets for panics. "
           "Non-trivial: accepted inputs, family cases, inputs of >= 8 bytes."),
     assumptions=TRUSTED + ["allocation is measured as the runtime.MemStats.TotalAlloc delta around the call with nothing else running in the process (repeatable to ~16 KiB)",
